@@ -183,6 +183,59 @@ proof fn lemma_addr_arith(ii: int, w: int, pb: int)
     lemma_mul_is_commutative(pb, w);
     lemma_mul_is_commutative(ii % pb, w);
 }
+
+/// phase 2 of push_values: whole blocks of `rep(vv)` plus an optional shifted partial block
+proof fn lemma_fill_blocks(olds: Seq<u32>, news: Seq<u32>, w: usize, len1: int, n: int, vv: u32, j: int)
+    requires 1 <= w <= 8, len1 >= 0, n >= 1, len1 % per_block_of(w) == 0,
+        olds.len() == len1 / per_block_of(w),
+        news.len() == blocks_for(len1 + n, w),
+        vv <= spec_mask(w),
+        forall|b: int| 0 <= b < olds.len() ==> news[b] == olds[b],
+        forall|b: int| olds.len() <= b < (len1 + n) / per_block_of(w) ==> news[b] == rep(vv, w as int, per_block_of(w)),
+        (len1 + n) % per_block_of(w) > 0 ==> news[(len1 + n) / per_block_of(w)]
+            == rep(vv, w as int, per_block_of(w)) >> (((per_block_of(w) - (len1 + n) % per_block_of(w)) * w) as u32),
+        0 <= j < len1 + n,
+    ensures
+        j < len1 ==> slot(news, w, j) == slot(olds, w, j),
+        j >= len1 ==> slot(news, w, j) == vv as u8,
+{
+    let pb = per_block_of(w); let i = len1 + n; let m = spec_mask(w);
+    lemma_pb(w); lemma_div_facts(len1, pb); lemma_div_facts(i, pb); lemma_div_facts(j, pb);
+    assert(m <= 255) by { assert((((1u32 << (w as u32)) - 1) as u32) <= 255) by (bit_vector) requires 1 <= w <= 8; }
+    assert((j % pb) * w + w <= pb * w && (j % pb) * w >= 0) by (nonlinear_arith) requires 0 <= j % pb < pb, w >= 1;
+    if j < len1 {
+        lemma_div_mono(j, len1, pb);
+        assert(j / pb < olds.len()) by { lemma_div_facts(len1, pb); }
+    } else {
+        lemma_div_mono(j, i, pb);
+        assert(j / pb >= len1 / pb) by { lemma_div_le(len1, j, pb); }
+        if j / pb < i / pb {
+            lemma_rep(vv, w as int, pb, j % pb);
+        } else {
+            // partial last block
+            assert(j / pb == i / pb) by { lemma_div_le(j, i, pb); }
+            let r = i % pb; let sh = ((pb - r) * w) as u32; let b = ((j % pb) * w) as u32;
+            assert(j % pb < r) by { lemma_same_block(j, i, pb); }
+            assert(r > 0);
+            assert((pb - r) * w >= 0 && (pb - r) * w + (j % pb) * w + w <= pb * w) by (nonlinear_arith) requires 0 <= j % pb < r, r < pb, w >= 1;
+            assert(((pb - r) + j % pb) * w == (pb - r) * w + (j % pb) * w) by (nonlinear_arith);
+            lemma_shr_field(rep(vv, w as int, pb), m, sh, b);
+            lemma_rep(vv, w as int, pb, (pb - r) + j % pb);
+        }
+    }
+}
+proof fn lemma_div_le(a: int, b: int, pb: int)
+    requires 0 <= a <= b, pb_ok(pb)
+    ensures a / pb <= b / pb
+{
+    if pb == 4 {} else if pb == 5 {} else if pb == 6 {} else if pb == 8 {} else if pb == 10 {} else if pb == 16 {} else {}
+}
+proof fn lemma_same_block(j: int, i: int, pb: int)
+    requires 0 <= j < i, pb_ok(pb), j / pb == i / pb
+    ensures j % pb < i % pb
+{
+    if pb == 4 {} else if pb == 5 {} else if pb == 6 {} else if pb == 8 {} else if pb == 10 {} else if pb == 16 {} else {}
+}
 // ---------------- end prelude ----------------
 
 fn mask(width: usize) -> (r: u32)
@@ -362,6 +415,7 @@ impl BitEnc {
         proof { lemma_pb(self.width); lemma_div_facts(len0, pb); }
         {
             let (block, bit) = self.addr(self.len);
+            proof { if bit == 0 { assert(len0 % pb == 0) by (nonlinear_arith) requires (len0 % pb) * w == 0, w >= 1, len0 % pb >= 0; } }
             if bit > 0 {
                 // R10: for bit in (bit..self.usable_bits_per_block).step_by(self.width).take(n)
                 let mut bit = bit; let __b = self.usable_bits_per_block; let __s = self.width; let __n = n; let mut __k: usize = 0;
@@ -432,14 +486,22 @@ impl BitEnc {
             assert(self.wf() || true);
         }
         let ghost len1 = self.len as int; let ghost k1 = len1 - len0;
-        assert(self.params_ok() && self.width == old(self).width && self.mask == old(self).mask
-            && self.storage.len() == blocks_for(len0, self.width) && n == n0 - k1 && 0 <= k1 <= n0
-            && self.view() == old(self).view() + Seq::new(k1 as nat, |k: int| vm)
-            && (n > 0 ==> len1 % pb == 0) && len1 / pb <= blocks_for(len0, self.width) && blocks_for(len1, self.width) == blocks_for(len0, self.width)) by {
-            if k1 == 0 { assert(self.view() =~= old(self).view() + Seq::new(0 as nat, |k: int| vm)); }
+        proof {
             lemma_div_facts(len0, pb);
-            if len0 % pb == 0 { assert(k1 == 0) by { assert((len0 % pb) * w == 0) by (nonlinear_arith) requires len0 % pb == 0; } }
+            if len0 % pb == 0 {
+                assert((len0 % pb) * w == 0) by (nonlinear_arith) requires len0 % pb == 0;
+                assert(k1 == 0);
+                assert(self.view() =~= old(self).view() + Seq::new(0 as nat, |k: int| vm));
+            }
+            assert(self.params_ok() && self.width == old(self).width && self.mask == old(self).mask);
+            assert(self.storage.len() == blocks_for(len0, self.width));
+            assert(n == n0 - k1 && 0 <= k1 <= n0);
+            assert(self.view() == old(self).view() + Seq::new(k1 as nat, |k: int| vm));
+            assert(n > 0 ==> len1 % pb == 0);
+            assert(blocks_for(len1, self.width) == blocks_for(len0, self.width));
         }
+        let ghost mid = self.storage@; let ghost view_mid = self.view(); let ghost n1 = n as int;
+        proof { if n == 0 { assert(self.view() =~= old(self).view() + Seq::new(n0 as nat, |k: int| vm)); } }
         if n > 0 {
             let mut value_block = 0;
             let ghost vv: u32 = (value as u32) & self.mask;
@@ -451,6 +513,7 @@ impl BitEnc {
                     else if w == 4 { assert(32usize / 4 == 8); } else if w == 5 { assert(32usize / 5 == 6); } else if w == 6 { assert(32usize / 6 == 5); }
                     else if w == 7 { assert(32usize / 7 == 4); } else { assert(32usize / 8 == 4); }
                     assert(vv << 0u32 == vv) by (bit_vector);
+                    assert(0 * w == 0) by (nonlinear_arith);
                 }
                 for __u in 0..32 / self.width
                     invariant
@@ -470,6 +533,13 @@ impl BitEnc {
             }
             let i = self.len + n;
             let (block, bit) = self.addr(i);
+            proof {
+                lemma_div_facts(len1, pb); lemma_div_facts(i as int, pb); lemma_div_le(len1, i as int, pb);
+                assert(value_block == rep(vv, w, pb));
+                assert(pb * w - (i as int % pb) * w == (pb - i as int % pb) * w) by (nonlinear_arith);
+                if bit > 0 { assert(i as int % pb > 0) by (nonlinear_arith) requires (i as int % pb) * w > 0, i as int % pb >= 0, w >= 1; }
+                else { assert(i as int % pb == 0) by (nonlinear_arith) requires (i as int % pb) * w == 0, w >= 1, i as int % pb >= 0; }
+            }
             self.storage.resize(block, value_block);
 
             if bit > 0 {
@@ -480,6 +550,20 @@ impl BitEnc {
             }
 
             self.len = i;
+            proof {
+                let news = self.storage@;
+                assert(self.view().len() == len0 + n0);
+                assert(vv as u8 == vm) by {
+                    let m = self.mask; let x = value;
+                    assert(m <= 255) by { let ww = w as u32; assert((((1u32 << ww) - 1) as u32) <= 255) by (bit_vector) requires 1 <= ww <= 8; }
+                    assert(((x as u32) & m) == ((x & (m as u8)) as u32)) by (bit_vector) requires m <= 255;
+                }
+                assert forall|j: int| 0 <= j < len0 + n0 implies self.view()[j] == (old(self).view() + Seq::new(n0 as nat, |k: int| vm))[j] by {
+                    lemma_fill_blocks(mid, news, self.width, len1, n1, vv, j);
+                    if j < len1 { assert(view_mid[j] == slot(mid, self.width, j)); }
+                }
+                assert(self.view() =~= old(self).view() + Seq::new(n0 as nat, |k: int| vm));
+            }
         }
     }
 
